@@ -739,6 +739,97 @@ func runNoStuckWait(c *Ctx) {
 		if n == 0 {
 			c.OKTrivial("orphan/none", recv.Pos(), "no fileReady.wait call remains")
 		}
+		// late records: where a record's file is looked up in stateByKey and not found, an error is returned only after the set
+		// of completed files said "not completed either" - a late ResumeRequest / FileEnd for a file that its data chunks already
+		// completed is normal and must not fail the transfer
+		nl := 0
+		var visit2 func(f *FuncInfo)
+		visit2 = func(f *FuncInfo) {
+			info := f.Info()
+			cfg := f.CFG()
+			var missVars, doneVars2 = map[types.Object]bool{}, map[types.Object]bool{}
+			InspectNoLits(f.Body, func(m ast.Node) bool {
+				if as, ok := m.(*ast.AssignStmt); ok && len(as.Rhs) == 1 && len(as.Lhs) == 2 {
+					if ix, ok := ast.Unparen(as.Rhs[0]).(*ast.IndexExpr); ok {
+						switch types.ExprString(ix.X) {
+						case "stateByKey":
+							// only look-ups that want the state (a duplicate test `_, exists :=` is not a late record)
+							if id, ok := ast.Unparen(as.Lhs[0]).(*ast.Ident); ok && id.Name != "_" {
+								missVars[ObjOf(info, as.Lhs[1])] = true
+							}
+						case "doneKeys":
+							doneVars2[ObjOf(info, as.Lhs[1])] = true
+						}
+					}
+				}
+				return true
+			})
+			if len(missVars) > 0 && f.Lit != nil && f.Var != nil {
+				spec := &PassSpec{Vias: []Via{{Cond: func(g *FuncInfo, e ast.Expr) (string, bool, bool) {
+					if o := ObjOf(g.Info(), e); o != nil {
+						if missVars[o] {
+							return "missed", false, true
+						}
+						if doneVars2[o] {
+							return "not-completed", false, true
+						}
+					}
+					// `!ok && finished`: false tells nothing by itself; handled through its parts by Implied on the true edge only
+					return "", false, false
+				}}}}
+				// `if !ok && finished { return nil }` : on the false edge, given missed, not-completed holds. Model: a compound
+				// whose parts are exactly {!miss, done} and whose true branch returns
+				spec.Vias = append(spec.Vias, Via{Cond: func(g *FuncInfo, e ast.Expr) (string, bool, bool) {
+					be, ok := ast.Unparen(e).(*ast.BinaryExpr)
+					if !ok || be.Op != token.LAND {
+						return "", false, false
+					}
+					hasMiss, hasDone, other := false, false, false
+					for _, a := range Implied(be, true) {
+						o := ObjOf(g.Info(), a.E)
+						switch {
+						case o != nil && missVars[o] && !a.Val:
+							hasMiss = true
+						case o != nil && doneVars2[o] && a.Val:
+							hasDone = true
+						default:
+							other = true
+						}
+					}
+					if hasMiss && hasDone && !other {
+						return "completed-diverted", false, true
+					}
+					return "", false, false
+				}})
+				for _, b := range cfg.Blocks {
+					ret, ok := IsReturnExit(b)
+					if !ok || len(ret.Results) != 1 {
+						continue
+					}
+					if types.ExprString(ret.Results[0]) == "nil" {
+						continue
+					}
+					if t := info.TypeOf(ret.Results[0]); t == nil || !isErrorType(t) {
+						continue
+					}
+					ref := NodeRef{b, len(b.Nodes) - 1}
+					if !spec.Passed(f, ref, "missed") {
+						continue // not on the look-up-miss path
+					}
+					nl++
+					okLate := spec.Passed(f, ref, "not-completed") || spec.Passed(f, ref, "completed-diverted")
+					c.Check(okLate, fmt.Sprintf("late-record/%s#%d", f.Name, nl), ret.Pos(), "an unknown file is an error only after the completed-files set was consulted",
+						"a record whose file is not (any more) in stateByKey is refused without consulting the set of completed files, or with a further condition on that test: a late ResumeRequest or FileEnd for a file that its data chunks already completed fails a healthy transfer")
+				}
+			}
+			for _, k := range f.Kids {
+				visit2(k)
+			}
+		}
+		visit2(recv)
+		if nl == 0 {
+			c.Unknown("late-record/none", recv.Pos(), "found no error return on a stateByKey miss in the receiver's record handlers")
+		}
 	}
 	// ---- ZERO
 	if nx := p.Func("transfer.(*sendFileState).nextChunkToSend"); nx != nil {
